@@ -18,7 +18,7 @@ def run(prop, tier, seed, work, ev):
                    "disagreement is a tool error); for shapes outside Decode.tla serde_json::from_value is the reference (differential)"]
     tlc_ok("mc/MC_Decode.tla", "MC_Decode.cfg", work, ev=ev, timeout=3000,
            label="decoding as coded (Deserializer protocol of variable.rs x serde's visitors) = Dec (Level 0) on 36 types x witnesses and their one-edit mutations; images decode to themselves")
-    for nc in ("seq_leftover_ok", "map_leftover_ok", "ident_any"):
+    for nc in ("seq_leftover_ok", "map_leftover_ok", "ident_any", "null_as_none", "enum_checks_variants"):
         tlc_must_fail("mc/MC_Decode.tla", "MC_Decode_neg_%s.cfg" % nc, work, invariant="Inv_L1", ev=ev)
     c = work.path("serde.cases")
     r = tlc("gen/Gen_Serde.tla", "Gen.cfg", work, env={"OUT": c, "DEEP": "2" if tier == "thorough" else "1"}, workers=1, timeout=1800)
